@@ -320,4 +320,69 @@ theorem written_follow_load_order (rd : RegionData) (rec : BioRecord) (w : Writt
     rw [hm'] at hm; injection hm with hm; subst hm
     exact ⟨n, hn, hd⟩
 
+/-! ### nothing inside the region is left out -/
+
+/-- the base record contains every feature lying between the region's bounds (on one side of the origin) -/
+theorem base_contains (rd : RegionData) (rec : BioRecord) (seq : List Char) (ws : List Working)
+    (parent : List BioFeature) (h : buildBaseRecord rd rec = .ok (seq, ws, parent)) (f : BioFeature)
+    (hf : f ∈ rec.features)
+    (hin : (rd.crossesOrigin = false ∧ rd.start ≤ f.loc.start ∧ f.loc.end ≤ rd.end) ∨
+           (rd.crossesOrigin = true ∧ rd.start ≤ f.loc.start ∧ f.loc.end ≤ rec.length) ∨
+           (rd.crossesOrigin = true ∧ 0 ≤ f.loc.start ∧ f.loc.end ≤ rd.end)) :
+    ∃ w ∈ ws, w.f.tag = f.tag := by
+  unfold buildBaseRecord at h
+  split at h
+  · rename_i hc
+    unfold buildRecordFromCrossOrigin at h
+    simp only [bind, Except.bind, pure, Except.pure] at h
+    split at h
+    · cases h
+    · split at h
+      · cases h
+      · rename_i post hpost
+        split at h
+        · cases h
+        · rename_i v hg
+          obtain ⟨par, cr⟩ := v
+          injection h with h; injection h with h1 h2; injection h2 with h2 h3
+          subst h2
+          rcases hin with ⟨hc', _⟩ | ⟨_, h1', h2'⟩ | ⟨_, h1', h2'⟩
+          · rw [hc] at hc'; cases hc'
+          · have := slice_to rec.features rd.start rec.length f hf h1' h2'
+            refine ⟨⟨{ f with loc := shiftLoc f.loc (-rd.start) }, none⟩, ?_, rfl⟩
+            exact List.mem_append.2 (.inl (List.mem_append.2 (.inl (List.mem_map.2 ⟨_, this, rfl⟩))))
+          · have := slice_to rec.features 0 rd.end f hf h1' h2'
+            obtain ⟨b, hb, hstep⟩ := mapE_mem_src _ _ post hpost _ this
+            refine ⟨⟨b, none⟩, List.mem_append.2 (.inr (List.mem_map.2 ⟨b, hb, rfl⟩)), ?_⟩
+            split at hstep
+            · cases hstep
+            · injection hstep with hstep; rw [← hstep]
+  · rename_i hc
+    injection h with h; injection h with h1 h2; injection h2 with h2 h3
+    subst h2
+    rcases hin with ⟨_, h1', h2'⟩ | ⟨hc', _⟩ | ⟨hc', _⟩
+    · have := slice_to rec.features rd.start rd.end f hf h1' h2'
+      exact ⟨⟨{ f with loc := shiftLoc f.loc (-rd.start) }, none⟩, List.mem_map.2 ⟨_, this, rfl⟩, rfl⟩
+    · rw [hc'] at hc; exact absurd rfl hc
+    · rw [hc'] at hc; exact absurd rfl hc
+
+/-- … and so does the written record -/
+theorem written_contains (rd : RegionData) (rec : BioRecord) (w : Written) (h : writeToGenbank rd rec = .ok w)
+    (f : BioFeature) (hf : f ∈ rec.features)
+    (hin : (rd.crossesOrigin = false ∧ rd.start ≤ f.loc.start ∧ f.loc.end ≤ rd.end) ∨
+           (rd.crossesOrigin = true ∧ rd.start ≤ f.loc.start ∧ f.loc.end ≤ rec.length) ∨
+           (rd.crossesOrigin = true ∧ 0 ≤ f.loc.start ∧ f.loc.end ≤ rd.end)) :
+    ∃ g ∈ w.extract.features, g.tag = f.tag := by
+  obtain ⟨seq, ws, parent, adjusted, hb, ha, hfe⟩ := written_features rd rec w h
+  obtain ⟨w0, hw0, ht⟩ := base_contains rd rec seq ws parent hb f hf hin
+  unfold adjustFeatures at ha
+  obtain ⟨w1, hw1, hstep⟩ := mapE_mem_src _ ws adjusted ha w0 hw0
+  split at hstep
+  · cases hstep
+  · rename_i g hg
+    injection hstep with hstep
+    refine ⟨g, ?_, ?_⟩
+    · rw [hfe]; exact List.mem_map.2 ⟨w1, hw1, by rw [← hstep]⟩
+    · rw [(adjustFeature_same rd _ _ w0.f g hg).1, ht]
+
 end ASV.RegionExtract
